@@ -70,7 +70,11 @@ NestTuple(n) == SelectPrefix \o <<120, 32, 73, 78, 32>> \o Rep(<<40>>, n) \o <<4
 WideSpaces == {160, 8195, 12288, 133, 8232}
 WideBad(w) == <<83, 69, 76, 69, 67, 84, w, 107, w, 70, 82, 79, 77, w, 116, w, 87, 72, 69, 82, 69, w, 118, w, 62, w, 70, 82, 79, 77, w, 50>>      \* SELECT k FROM t WHERE v > FROM 2
 WideBad2(w) == <<83, 69, 76, 69, 67, 84, 32, 107, 44, w, 70, 82, 79, 77, 32, 116>>                                                       \* SELECT k,<w>FROM t
-ExtraCases == {[kind |-> "nest", text |-> NestTuple(n), allowed |-> {"ok", "err"}] : n \in {2, 8, 24, 48}}
+\* array type names spelt with letters whose lower-case form has another UTF-8 length (KELVIN SIGN, ANGSTROM SIGN, CAPITAL SHARP S, I WITH DOT ABOVE)
+TypePrefix == <<67, 82, 69, 65, 84, 69, 32, 84, 65, 66, 76, 69, 32, 116, 40, 108, 105, 110, 101, 32, 61, 32, 39, 97, 39, 44, 32, 108, 105, 110, 101, 91, 49, 93, 32, 61, 62, 32, 120, 32>>
+RareType(w, n) == TypePrefix \o [i \in 1..n |-> w] \o <<91, 93, 41, 59>>
+ExtraCases == {[kind |-> "patnest", text |-> RareType(w, n), allowed |-> {"err"}] : w \in {8490, 8491, 7838, 304}, n \in {1, 2}}
+              \cup {[kind |-> "nest", text |-> NestTuple(n), allowed |-> {"ok", "err"}] : n \in {2, 8, 24, 48}}
               \cup {[kind |-> "bad", text |-> f, allowed |-> {"err"}] : f \in {WideBad(w) : w \in WideSpaces} \cup {WideBad2(w) : w \in WideSpaces}}
               \cup {[kind |-> "patnest", text |-> f, allowed |-> {"ok", "err"}] :
                   f \in {PatNest(n) : n \in {1, 64, 250, 251, 1000, 5000, 20000}} \cup {PatClass(n) : n \in {1, 64, 1000, 5000}} \cup {PatRepeat(n) : n \in {1, 2, 3, 8}}
